@@ -177,14 +177,15 @@ Proof.
   intros H1 H2 H3 H4 b'. unfold step, in_mbox. rewrite H1, H2, H3.
   destruct (gate b s u true) as [[b0 o0]|] eqn:G; [|cbn [fst]; rewrite H2; intros H; inversion H; left; reflexivity].
   apply gate_true in G.
-  destruct (admit_set w n b0 u st) as [[[b1 o1] sl]|] eqn:A.
-  - apply admit_set_ok in A. rewrite H4. cbn [filter]. rewrite map_at_nil.
+  destruct (admit_set w n b0 u st) as [[[b1a o1a] sl]|] eqn:A.
+  - apply admit_set_ok in A. destruct (flush b1a s) as [b1 o1b] eqn:Ef1. rewrite H4. cbn [filter]. rewrite map_at_nil.
     match goal with |- context [dispatch ?B ?D ?R] => destruct (dispatch B D R) as [b3 o2] eqn:Ed end.
     destruct (flush b3 s) as [b4 o3] eqn:Ef. cbn [fst]. rewrite get_set_box, String.eqb_refl. intros H; inversion H; subst b'.
     right. replace b4 with (fst (flush b3 s)) by (rewrite Ef; reflexivity). rewrite (proj1 (flush_msgs b3 s)).
     match type of Ed with dispatch ?B ?D ?R = _ => replace b3 with (fst (dispatch B D R)) by (rewrite Ed; reflexivity);
       rewrite (proj1 (dispatch_msgs B D R)) end.
-    cbn [set_msgs b_msgs]. subst b1 b0. reflexivity.
+    cbn [set_msgs b_msgs]. replace b1 with (fst (flush b1a s)) by (rewrite Ef1; reflexivity).
+    rewrite (proj1 (flush_msgs b1a s)). subst b1a b0. reflexivity.
   - cbn [fst]. rewrite get_set_box, String.eqb_refl. intros H; inversion H; subst b'. left.
     subst b0. apply (proj1 (flush_msgs b s)).
 Qed.
